@@ -193,6 +193,80 @@ func specTip(blocks []*rBlock) *rBlock {
 	return best
 }
 
+// fallbackChoice is the leaf that the node is DOCUMENTED to fall back to after a failed reorganisation (known findings
+// tie-not-first-seen-after-failed-reorg / farthest-ignores-leaf-work), computed here from the description only:
+// over the blocks the node knows, each branch cut at its first invalid block, every leaf is valued by the exact
+// cumulative work of the blocks ABOVE it (its own work is not counted); walk down from genesis and at every fork take
+// the first child in arrival order whose subtree holds a leaf of maximum value. Also returned: every leaf of that
+// maximum value (the ones a rounding error in the sums could select instead).
+func fallbackChoice(blocks []*rBlock) (*rBlock, []*rBlock) {
+	kids := map[*rBlock][]*rBlock{}
+	var root *rBlock
+	for _, b := range blocks {
+		if b.Parent == nil {
+			root = b
+			continue
+		}
+		if b.firstSeen < 0 {
+			continue
+		}
+		if eval(b); b.valid {
+			kids[b.Parent] = append(kids[b.Parent], b)
+		}
+	}
+	for _, ks := range kids {
+		sort.Slice(ks, func(i, j int) bool { return ks[i].firstSeen < ks[j].firstSeen })
+	}
+	value := func(leaf *rBlock) *big.Rat {
+		if leaf.Parent == nil {
+			return new(big.Rat)
+		}
+		eval(leaf.Parent)
+		return leaf.Parent.work
+	}
+	var all []*rBlock
+	var best func(n *rBlock) *rBlock
+	best = func(n *rBlock) *rBlock {
+		if len(kids[n]) == 0 {
+			all = append(all, n)
+			return n
+		}
+		var res *rBlock
+		for _, k := range kids[n] {
+			if c := best(k); res == nil || value(c).Cmp(value(res)) > 0 {
+				res = c
+			}
+		}
+		return res
+	}
+	d := best(root)
+	var top []*rBlock
+	for _, l := range all {
+		if value(l).Cmp(value(d)) == 0 {
+			top = append(top, l)
+		}
+	}
+	return d, top
+}
+
+// mixedBits: do the blocks between the fork point of a and b and the two tips carry different difficulty bits?
+// (Only then can the float64 sums of the code differ from the exact sums, and only then does it matter that the
+// fall-back does not count a leaf's own work.)
+func mixedBits(a, b *rBlock) bool {
+	f := forkPoint(a, b)
+	var bits uint32
+	for _, x := range []*rBlock{a, b} {
+		for ; x != f; x = x.Parent {
+			if bits == 0 {
+				bits = x.Bits
+			} else if x.Bits != bits {
+				return true
+			}
+		}
+	}
+	return false
+}
+
 func dumpOfView(v map[outpoint]rCoin) []string {
 	lines := make([]string, 0, len(v))
 	for op, c := range v {
